@@ -682,6 +682,25 @@ impl<'a> Gen<'a> {
     fn arr_expr(&mut self, elem: &Ty, depth: usize) -> Expr {
         let t = Ty::arr(elem.clone());
         let w_it = self.p.iterators;
+        if let Ty::Union(ms) = elem
+            && ms.len() >= 2
+            && depth >= 2
+            && self.tape.chance(1, 5)
+        {
+            // every element has the union as its static type, and all of them are of one member: what
+            // the array is labelled with must not depend on whether the elements were folded
+            let k = self.tape.below(ms.len());
+            let (m, other) = (ms[k].clone(), ms[(k + 1) % ms.len()].clone());
+            let n = 1 + self.tape.below(3);
+            self.label("array of union-typed elements of one member");
+            let items = (0..n)
+                .map(|_| {
+                    let pair = vec![self.expr(&m, depth - 1), self.leaf(&other)];
+                    Expr::Index(Box::new(Expr::Array(pair)), Box::new(Expr::Int(0)))
+                })
+                .collect();
+            return Expr::Array(items);
+        }
         match self.tape.weighted(&[4, 3, 3, 2, 2, w_it]) {
             0 => {
                 let n = self.tape.below(4);
@@ -1465,6 +1484,31 @@ impl<'a> Gen<'a> {
         if depth >= 1 && self.tape.chance(1, 8) {
             return self.match_array_by_value(depth, value);
         }
+        // `match (u, e) { t: (A, C) => .., t: (B, C) => .. }` with u a variable of type A|B: the static
+        // type of the scrutinee is one tuple type, its run-time type one of two
+        let unions = self.vars_of(|t| matches!(t, Ty::Union(ms) if ms.len() == 2 && ms.iter().all(|m| matches!(m, Ty::Int | Ty::Bool | Ty::Str | Ty::Float))));
+        if depth >= 1 && !unions.is_empty() && self.tape.chance(1, 3) {
+            let u = unions[self.tape.below(unions.len())].clone();
+            let Ty::Union(ms) = &u.ty else { unreachable!() };
+            let c = self.gen_scalar_ty();
+            let second = self.expr(&c, depth - 1);
+            self.label("match on a tuple with a union-typed component");
+            let scrutinee = if self.tape.bool() {
+                Expr::Tuple(vec![Expr::Var(u.name.clone()), second])
+            } else {
+                Expr::Tuple(vec![second, Expr::Var(u.name.clone())])
+            };
+            let first_is_union = matches!(&scrutinee, Expr::Tuple(xs) if matches!(xs[0], Expr::Var(_)));
+            let tuple_of = |m: &Ty| if first_is_union { Ty::Tup(vec![m.clone(), c.clone()]) } else { Ty::Tup(vec![c.clone(), m.clone()]) };
+            let mut arms = vec![];
+            let order: Vec<Ty> = if self.tape.bool() { ms.clone() } else { ms.iter().rev().cloned().collect() };
+            for m in &order {
+                arms.push(self.type_arm(tuple_of(m), depth, value));
+            }
+            // (the checker does not distribute a tuple over the union of a component: a default arm is required)
+            arms.push(Arm::Other(self.block(depth.saturating_sub(1), 1, value)));
+            return Stmt::Match(scrutinee, arms);
+        }
         // scrutinee: a union of scalars (run-time type unambiguous)
         let members: Vec<Ty> = {
             let mut ms = vec![self.gen_dispatch_ty(), self.gen_dispatch_ty()];
@@ -1577,7 +1621,18 @@ impl<'a> Gen<'a> {
                     Ty::Arr(_) => (*self.tape.pick(&["=", "+="]), inner.clone()),
                     other => ("=", other.clone()),
                 };
+                let compound_rhs = vt == Ty::Int && matches!(op, "/=" | "%=" | "<<=" | ">>=" | "**=") && self.tape.chance(1, 3);
                 let value = match op {
+                    // an unparenthesised operation on the right: the assignment takes all of it
+                    _ if compound_rhs => {
+                        self.label("compound assignment with an operation on its right");
+                        let (a, o, b) = match op {
+                            "/=" | "%=" => *self.tape.pick(&[(1i64, "+", 1i64), (3, "-", 1), (1, "*", 3), (0, "+", 0), (2, "-", 3)]),
+                            "<<=" | ">>=" => *self.tape.pick(&[(1i64, "+", 2i64), (60, "+", 3), (32, "+", 32), (0, "*", 5), (1, "-", 2)]),
+                            _ => *self.tape.pick(&[(1i64, "+", 1i64), (1, "-", 1), (0, "-", 1), (1, "*", 2), (3, "-", 2)]),
+                        };
+                        Expr::Bin(o, Box::new(Expr::Int(a)), Box::new(Expr::Int(b)))
+                    }
                     "/=" | "%=" if vt == Ty::Int => Expr::Int(*self.tape.pick(&[1i64, 2, 3, -1, 0])),
                     "<<=" | ">>=" => Expr::Int(*self.tape.pick(&[0i64, 1, 3, 63, 64])),
                     "**=" => Expr::Int(*self.tape.pick(&[0i64, 1, 2, -1])),
